@@ -2,12 +2,14 @@
 import numpy as np
 
 from symx import core
-from .catalogue_common import (ASSUMPTIONS, GROUP_DIMS, NAMES, TEMPLATES, UNITS, Env, engine_refusal, flatten, handler_coverage,  # noqa: F401
+from .catalogue_common import (ASSUMPTIONS, GROUP_DIMS, NAMES, TEMPLATES, UNITS, Env, Tpl, elem_eq, engine_refusal, flatten, handler_coverage,  # noqa: F401
                                install_numpy_patches, is_unyt, leaf_elements, leaf_shape, leaves_equal, make_registry, namespaces,
                                numeric_obs, select)
 from .common import And, Case, call, check_names
 
 LEVEL = "other"
+NAN_MASK_TEXT = ("n0: element 0 of every payload array; nl: the last element of every payload array with >= 2 elements; na: element 0 of the first "
+                 "operand only; nb: the last element of every operand but the first (na / nb: templates with >= 2 operands)")
 MANIFEST = dict(
     category="other",
     text=("Bounded symbolic execution of the real __array_function__ dispatch, the @implements handlers and the ndarray-method "
@@ -21,7 +23,12 @@ MANIFEST = dict(
           "integer-valued symbols whose declared dtype is what unyt's own code reads (A12), z3 deciding for ALL integers; a typed "
           "family runs every template on real int / uint / float32 / complex buffers against bare NumPy on identical buffers "
           "(shape, dtype kind, bit-identical values, out= buffers) - that family is ENUMERATION of a dtype x value table, not a "
-          "solver verdict. Bounded: catalogue of templates, shapes <= (2,3)/(2,2,2); IEEE rounding, integer wrap-around and "
+          "solver verdict. Aliasing axis: the two-operand functions are also called with the second operand RELATED to the first (the very "
+          "same object, a view, the reversed view, a copy, the stripped view of the quantity) and single-operand functions with the operand "
+          "as its own out= target - in every payload family. NaN axis: a solver family puts an unordered, absorbing NaN element at "
+          "enumerated positions of every payload array and keeps the other elements z3 reals (A13: decided for all finite values; NumPy's "
+          "object-dtype semantics of NaN); the typed family runs NaN / inf / -0.0 value sets through the real float kernels (enumeration). "
+          "Bounded: catalogue of templates, shapes <= (2,3)/(2,2,2); IEEE rounding, integer wrap-around and "
           "complex payloads beyond the typed table are outside."),
     design="DESIGN.md section 4 C06",
     technique="differential symbolic execution of the real Python code over z3 real / integer-valued terms (quantity call vs stripped call); SMT obligations per path; uninterpreted-function model of opaque kernels; concrete typed-buffer differential over an enumerated dtype x value table; counterexample replay")
@@ -45,19 +52,39 @@ EXPLANATION = (
     "C06/typed/*: every template on real typed buffers (a fixed table of values with rounding ties, negatives, zero, values beyond "
     "8/16 bit; quarters for float/complex) through the real handler and through bare NumPy: same structure, shape, dtype kind, "
     "bit-identical values, same final out= buffers / arguments, out= buffers keep their dtype. No symbol is involved there: every "
-    "obligation of that family is a ground check over the enumerated table (replayed on plain unyt like any counterexample).")
+    "obligation of that family is a ground check over the enumerated table (replayed on plain unyt like any counterexample). For float / "
+    "complex dtypes the table is run a second time with NON-FINITE value sets (nan0 / nanL: NaN in the first / last element of every array, "
+    "complex: in the imaginary / real part; inf: +inf first, -inf last; negzero: -0.0 first), obligations labelled '(dtype, non-finite data)'. "
+    "C06/alias/<function>/<relation>/<rank> (and the same templates inside typed / int / nan): identity and aliasing between arguments. "
+    "59 two-operand call forms f(a, b) with b = a itself (`same`), a[...] (`view`), a[::-1] (`rev`), a.copy() (`copy`), the stripped ndarray "
+    "view of the quantity (`bview`), over ranks 0-d / 1-d (3) / 2-d (2,2); 17 single-operand forms with out= the operand itself or its "
+    "first row (`out`). A handler that recognises `a1 is a2`, shared memory or `out is a` and answers from a shortcut runs that shortcut. "
+    "C06/nan/<mask>/*: every Tier-1 template (alias templates included) with a NaN element at the positions named by <mask> (" + NAN_MASK_TEXT +
+    "); all other elements are z3 reals and the obligations are the same with 'NaN at the same position' counting as equal. NaN is "
+    "unordered and absorbing (A13), so x == x is no longer a theorem: np.array_equal(a, a) must answer False. isclose / allclose are the "
+    "A4 formula models extended by NumPy's NaN rule (never close; close to another NaN under equal_nan=True). Sorted / bounded / patterned "
+    "payloads (preconditions of the call) stay finite. Paths on which a NaN reaches an operation that needs a z3 term or a float kernel "
+    "are cut and counted.")
 BOUNDS = {
     "quick": "the `quick` subset of the template catalogue (one or two forms per function), shapes (), (2,), (3,), (2,2), (2,3); rank sweep: "
              "rank pairs with a 0-d operand x all operand kinds; rounding: 11 of 32 decimals x form templates. Integer family: every Tier-1 "
              "template of this subset except np.unwrap, declared int64, all integers (solver). Typed family (ENUMERATION): every template x {int64, uint16, float32, "
-             "complex128} x 2 value sets of a 28-entry table",
+             "complex128} x 2 value sets of a 28-entry table, float32 / complex128 again x 2 non-finite value sets (nan0, inf). Aliasing: every "
+             "two-operand form x `same` on 1-d operands, 10 validating / joining forms also x `same` on 0-d and 2-d and x `view`, `rev` on 1-d; "
+             "out= aliasing forms on one rank. NaN family (solver): every Tier-1 template of this subset x mask n0",
     "thorough": "the full template catalogue: positional / keyword / out= variants, equal and ragged extents, plus a shape x axis sweep of 25 "
                 "single-operand functions over (), (1,), (0,), (2,3), (3,2), (1,2), (2,2,2); sorting-type functions with axis=None only up to 3 "
                 "elements; rank sweep: all 9 rank pairs x all kinds (sorting-type functions: <= 3 elements); all 32 rounding templates. Integer "
                 "family: every Tier-1 template except the shape x axis sweep and np.unwrap x declared {int64, uint64 (symbols >= 0)}, all integers (solver). Typed family (ENUMERATION): every template x {int8, int32, int64, uint8, uint16, uint64, "
-                "float32, float64, complex64, complex128} x 4 value sets",
+                "float32, float64, complex64, complex128} x 4 value sets, the four float / complex dtypes again x 4 non-finite value sets. "
+                "Aliasing: 59 two-operand forms x 5 relations x ranks 0-d / 1-d / 2-d (sorting-type functions: <= 3 elements, no 2-d), 17 out= "
+                "aliasing forms x ranks. NaN family (solver): every Tier-1 template except the shape x axis sweep x masks n0, nl and (templates "
+                "with >= 2 operands) na, nb",
 }
-OUTSIDE = ("IEEE rounding (A1); integer wrap-around and the dtype WIDTH of results (only the dtype kind is compared, in the typed family); "
+OUTSIDE = ("IEEE rounding (A1); NaN only as an unordered, absorbing element at enumerated positions (A13: where NumPy's float kernels special-case "
+           "NaN - sort order, maximum/minimum, unique, isnan-based code such as array_equal(equal_nan=True) and the nan-functions - only the typed "
+           "table sees the real behaviour), inf and -0.0 only in the typed table; relations between arguments beyond the six walked "
+           "(partially overlapping slices, broadcast views, aliasing among three or more operands); integer wrap-around and the dtype WIDTH of results (only the dtype kind is compared, in the typed family); "
            "the typed family decides nothing beyond its value table: a dtype-dependent defect that needs a value outside the table AND is not "
            "visible to the integer family (which sees dtype reads made by unyt's own code on the operand, not e.g. np.asarray(a).dtype or "
            "np.result_type) is missed; complex and float32 payloads are only in the typed table (no solver verdict); integer out= buffers that "
@@ -72,7 +99,8 @@ OUTSIDE = ("IEEE rounding (A1); integer wrap-around and the dtype WIDTH of resul
 CONFORM = {"quick": 40, "thorough": 120}
 
 
-def make_case(t, env=None, case_id=None, conform=None, **casekw):
+def make_case(t, env=None, case_id=None, conform=None, same=None, observe=True, **casekw):
+    leaves_equal = same or globals()["leaves_equal"]
     env = env or (lambda ctx, mode, reg=None, alias=False: Env(ctx, mode, reg, alias=alias))
 
     def h(ctx):
@@ -124,7 +152,7 @@ def make_case(t, env=None, case_id=None, conform=None, **casekw):
                 after.append(leaves_equal(x, y, exact=True))
         ctx.require("arguments and out= buffers after the call", And(*after) if after else True,
                     quantities={n: str(v)[:80] for n, v in EQ.made.items()}, stripped={n: str(v)[:80] for n, v in EB.made.items()})
-        if t.tier == 1:
+        if t.tier == 1 and observe:
             ctx.observe("result", numeric_obs(rq[1]))
             ctx.observe("args", [e for v in EQ.made.values() for e in numeric_obs(v)])
 
@@ -261,6 +289,11 @@ def make_int_case(t, dtype):
 TYPED_DTYPES = {"quick": ["int64", "uint16", "float32", "complex128"],
                 "thorough": ["int8", "int32", "int64", "uint8", "uint16", "uint64", "float32", "float64", "complex64", "complex128"]}
 TYPED_SETS = {"quick": 2, "thorough": 4}
+# float / complex buffers additionally get NON-FINITE value sets (IEEE semantics of the real kernels; A1 keeps these out of the solver
+# families): nan0 = element 0 of every array is NaN (complex: NaN imaginary part), nanL = the last element (complex: NaN real part),
+# inf = +inf first / -inf last, negzero = -0.0 first / +0.0 last. Arrays made with pos / nonzero / increasing stay finite.
+TYPED_NONFINITE = {"quick": ["nan0", "inf"], "thorough": ["nan0", "nanL", "inf", "negzero"]}
+NONFINITE_TAG = "non-finite data"
 # integers with ones / tens / hundreds digits 5 (rounding ties to either side), negatives, zero, +-1, values beyond 8 and 16 bit
 VALUE_TABLE = [7, -3, 15, 25, -15, 1234, -1772, 0, 1, -1, 5, -25, 100, 55, 1250, -449, 35, 2, -8, 64, 45, -35, 9, 650, -150, 70000, 3, -6]
 
@@ -279,10 +312,11 @@ def _table_value(i, dt):
 class TypedEnv:
     """the argument factory of catalogue_common.Env over typed buffers with enumerated values"""
 
-    def __init__(self, ctx, mode, reg, dtype, vset):
+    def __init__(self, ctx, mode, reg, dtype, vset, nonfinite=None):
         self.ctx, self.mode, self.reg = ctx, mode, reg
         self.dt = np.dtype(dtype)
         self.vset = vset
+        self.nonfinite = nonfinite if self.dt.kind in "fc" else None
         self.made, self.group, self.outs = {}, {}, {}
 
     def _start(self, name):
@@ -312,6 +346,15 @@ class TypedEnv:
                     acc = acc + abs(v) + 1
                 out.append(acc)
             vals = out
+        elif self.nonfinite and not pos and not nonzero:
+            cx = self.dt.kind == "c"
+            first, last = {"nan0": (complex(vals[0].real, np.nan) if cx else np.nan, None),
+                           "nanL": (None, complex(np.nan, vals[-1].imag) if cx else np.nan),
+                           "inf": (np.inf, -np.inf), "negzero": (-0.0, 0.0)}[self.nonfinite]
+            if first is not None:
+                vals[0] = first
+            if last is not None and n >= 2:
+                vals[-1] = last
         return np.array(vals, dtype=self.dt).reshape(shape)
 
     def _wrap(self, x, group):
@@ -414,18 +457,21 @@ def make_typed_case(t, tier):
     def h(ctx):
         import warnings
         reg = typed_registry(ctx, t.groups)
-        for dtype in TYPED_DTYPES[tier]:
+        blocks = [(dtype, None) for dtype in TYPED_DTYPES[tier]] + [(dtype, NONFINITE_TAG) for dtype in TYPED_DTYPES[tier] if np.dtype(dtype).kind in "fc"]
+        for dtype, tag in blocks:
             failed, compared, raised = {}, 0, 0
-            for vset in range(TYPED_SETS[tier]):
+            sets = [(v, None) for v in range(TYPED_SETS[tier])] if tag is None else [(i, nf) for i, nf in enumerate(TYPED_NONFINITE[tier])]
+            dtag = dtype if tag is None else f"{dtype}, {tag}"
+            for vset, nf in sets:
                 with warnings.catch_warnings(), np.errstate(all="ignore"):
                     warnings.simplefilter("ignore")
                     try:
-                        EQ = TypedEnv(ctx, "q", reg, dtype, vset)
+                        EQ = TypedEnv(ctx, "q", reg, dtype, vset, nf)
                         rq = call(t.fn, np, EQ)
                         if rq[0] == "raise":
                             raised += 1
                             continue
-                        EB = TypedEnv(ctx, "bare", None, dtype, vset)
+                        EB = TypedEnv(ctx, "bare", None, dtype, vset, nf)
                         rb = call(t.fn, np, EB)
                     except core.Unsupported:
                         continue
@@ -438,36 +484,431 @@ def make_typed_case(t, tier):
                     else:
                         bad = typed_compare(t, rq[1], rb[1], EQ, EB, EQ.outs)
                     for label, detail in bad.items():
-                        failed.setdefault(label, f"value set {vset}: {detail}"[:300])
-            # one obligation per (label, dtype): it holds if it held for every value set of the table
+                        failed.setdefault(label, f"value set {nf or vset}: {detail}"[:300])
+            # one obligation per (label, dtype[, non-finite]): it holds if it held for every value set of the table
             if compared == 0:
-                ctx.require(f"typed: unyt raises for every value set (allowed by the property) or the template is not tabulated ({dtype})", True)
+                ctx.require(f"typed: unyt raises for every value set (allowed by the property) or the template is not tabulated ({dtag})", True)
                 continue
             for label in TYPED_LABELS:
-                ctx.require(f"{label} ({dtype})", label not in failed, detail=failed.get(label, ""))
+                ctx.require(f"{label} ({dtag})", label not in failed, detail=failed.get(label, ""))
         # the table is fixed: the same buffers in the symbolic, pinned and replay runs
 
     return Case(f"C06/typed/{t.name}", h, bounds="enumerated: dtype x value table (typed buffers; no symbols)", weight=1, max_paths=8,
                 budget_s=300.0, conform=False, group=t.key)
 
 
+# ----------------------------------------------------------------------------------------------------------- identity / aliasing between arguments
+# Every other family hands a function operands that are DIFFERENT objects with independent data. Here the second operand of a
+# two-operand call is RELATED to the first: the very same object (`same`), a view of it (`view`: x[...]), its reversed view
+# (`rev`: overlapping memory in another order), a copy (`copy`: equal numbers, distinct buffers), the stripped ndarray view of the
+# quantity (`bview`); and single-operand calls get the operand itself as out= target (`out`). A handler that recognises one of
+# these relations (`a1 is a2`, np.shares_memory, `out is a`) and answers from a shortcut is executed on that shortcut here.
+# These templates are C06-only Tpl objects (not in the shared TEMPLATES list); they run in the real, integer, typed and NaN families.
+_AR = {"0": (), "1": (3,), "2": (2, 2)}
+RELATIONS = ("same", "view", "rev", "copy", "bview")
+
+
+def _related(E, a, rel):
+    if rel == "same":
+        return a
+    if rel == "view":
+        b = a[...]
+    elif rel == "rev":
+        b = a[::-1]
+    elif rel == "copy":
+        b = a.copy()
+    else:
+        b = a.view(np.ndarray) if is_unyt(a) else a[...]
+    E.made["b"] = b
+    return b
+
+
+def _mask_like(a):
+    n = int(np.prod(np.shape(a), dtype=int))
+    return (np.arange(n) % 2 == 0).reshape(np.shape(a))
+
+
+def _perm(a):
+    n = int(np.prod(np.shape(a), dtype=int))
+    return (np.arange(n)[::-1]).reshape(np.shape(a))
+
+
+ALIAS2 = [  # (name, handler key, call on (N, a, b)): b is related to a
+    ("np.dot", "numpy.dot", lambda N, a, b: N.dot(a, b)),
+    ("np.vdot", "numpy.vdot", lambda N, a, b: N.vdot(a, b)),
+    ("np.inner", "numpy.inner", lambda N, a, b: N.inner(a, b)),
+    ("np.outer", "numpy.outer", lambda N, a, b: N.outer(a, b)),
+    ("np.linalg.outer", "numpy.linalg.outer", lambda N, a, b: N.linalg.outer(a, b)),
+    ("np.kron", "numpy.kron", lambda N, a, b: N.kron(a, b)),
+    ("np.tensordot-axes0", "numpy.tensordot", lambda N, a, b: N.tensordot(a, b, 0)),
+    ("np.tensordot-axes1", "numpy.tensordot", lambda N, a, b: N.tensordot(a, b, axes=1)),
+    ("np.einsum-bcast", "numpy.einsum", lambda N, a, b: N.einsum("...,...->...", a, b)),
+    ("np.convolve", "numpy.convolve", lambda N, a, b: N.convolve(a, b)),
+    ("np.correlate", "numpy.correlate", lambda N, a, b: N.correlate(a, b, "full")),
+    ("np.matmul", "numpy.matmul", lambda N, a, b: N.matmul(a, b)),
+    ("op.matmul", "ndarray.__matmul__", lambda N, a, b: a @ b),
+    ("m.dot", "ndarray.dot", lambda N, a, b: a.dot(b)),
+    ("np.cross", "numpy.cross", lambda N, a, b: N.cross(a, b)),
+    ("np.linalg.vecdot", "numpy.linalg.vecdot", lambda N, a, b: N.linalg.vecdot(a, b)),
+    ("np.linalg.multi_dot", "numpy.linalg.multi_dot", lambda N, a, b: N.linalg.multi_dot([a, b])),
+    ("np.concatenate", "numpy.concatenate", lambda N, a, b: N.concatenate([a, b])),
+    ("np.concatenate-axisNone", "numpy.concatenate", lambda N, a, b: N.concatenate([a, b], axis=None)),
+    ("np.vstack", "numpy.vstack", lambda N, a, b: N.vstack([a, b])),
+    ("np.hstack", "numpy.hstack", lambda N, a, b: N.hstack([a, b])),
+    ("np.dstack", "numpy.dstack", lambda N, a, b: N.dstack([a, b])),
+    ("np.column_stack", "numpy.column_stack", lambda N, a, b: N.column_stack([a, b])),
+    ("np.stack", "numpy.stack", lambda N, a, b: N.stack([a, b])),
+    ("np.block", "numpy.block", lambda N, a, b: N.block([a, b])),
+    ("np.append", "numpy.append", lambda N, a, b: N.append(a, b)),
+    ("np.isclose", "numpy.isclose", lambda N, a, b: N.isclose(a, b, rtol=0.25, atol=0)),
+    ("np.isclose-equal_nan", "numpy.isclose", lambda N, a, b: N.isclose(a, b, 0.25, 0, equal_nan=True)),
+    ("np.allclose", "numpy.allclose", lambda N, a, b: N.allclose(a, b, 0.25, 0)),
+    ("np.allclose-equal_nan", "numpy.allclose", lambda N, a, b: N.allclose(a, b, rtol=0.25, atol=0, equal_nan=True)),
+    ("np.array_equal", "numpy.array_equal", lambda N, a, b: N.array_equal(a, b)),
+    ("np.array_equal-equal_nan", "numpy.array_equal", lambda N, a, b: N.array_equal(a, b, equal_nan=True)),
+    ("np.array_equiv", "numpy.array_equiv", lambda N, a, b: N.array_equiv(a, b)),
+    ("np.where", "numpy.where", lambda N, a, b: N.where(_mask_like(a), a, b)),
+    ("np.isin", "numpy.isin", lambda N, a, b: N.isin(a, b)),
+    ("np.isin-invert", "numpy.isin", lambda N, a, b: N.isin(a, b, invert=True)),
+    ("np.intersect1d", "numpy.intersect1d", lambda N, a, b: N.intersect1d(a, b)),
+    ("np.union1d", "numpy.union1d", lambda N, a, b: N.union1d(a, b)),
+    ("np.setdiff1d", "numpy.setdiff1d", lambda N, a, b: N.setdiff1d(a, b)),
+    ("np.setxor1d", "numpy.setxor1d", lambda N, a, b: N.setxor1d(a, b)),
+    ("np.searchsorted", "numpy.searchsorted", lambda N, a, b: N.searchsorted(a, b)),
+    ("np.copyto", "numpy.copyto", lambda N, a, b: N.copyto(a, b)),
+    ("np.putmask", "numpy.putmask", lambda N, a, b: N.putmask(a, _mask_like(a), b)),
+    ("np.place", "numpy.place", lambda N, a, b: N.place(a, _mask_like(a), b)),
+    ("np.put", "numpy.put", lambda N, a, b: N.put(a, [0], b)),
+    ("m.setitem", "ndarray.__setitem__", lambda N, a, b: a.__setitem__(Ellipsis, b)),
+    ("np.clip-bounds", "numpy.clip", lambda N, a, b: N.clip(a, b, b)),
+    ("np.linspace", "numpy.linspace", lambda N, a, b: N.linspace(a, b, 3)),
+    ("np.trapezoid", "numpy.trapezoid", lambda N, a, b: N.trapezoid(a, b)),
+    ("np.cov", "numpy.cov", lambda N, a, b: N.cov(a, b)),
+    ("np.insert", "numpy.insert", lambda N, a, b: N.insert(a, 1, b)),
+    ("np.ediff1d-to_end", "numpy.ediff1d", lambda N, a, b: N.ediff1d(a, to_end=b)),
+    ("np.diff-prepend", "numpy.diff", lambda N, a, b: N.diff(a, prepend=b)),
+    ("np.choose", "numpy.choose", lambda N, a, b: N.choose(_mask_like(a).astype(int), [a, b])),
+    ("np.select-default", "numpy.select", lambda N, a, b: N.select([_mask_like(a)], [a], default=b)),
+    ("np.meshgrid", "numpy.meshgrid", lambda N, a, b: N.meshgrid(a, b)),
+    ("np.broadcast_arrays", "numpy.broadcast_arrays", lambda N, a, b: N.broadcast_arrays(a, b)),
+    ("np.lexsort", "numpy.lexsort", lambda N, a, b: N.lexsort((a, b))),
+    ("np.full_like", "numpy.full_like", lambda N, a, b: N.full_like(a, b)),
+]
+# sorting-type functions fork on every ordering: 1-d operands of 3 elements at most
+_ALIAS_SMALL = ("np.isin", "np.isin-invert", "np.intersect1d", "np.union1d", "np.setdiff1d", "np.setxor1d", "np.searchsorted", "np.lexsort")
+# quick tier: the validating / comparing functions (answers that a shortcut can fake) in more relations than the rest
+_ALIAS_QUICK_WIDE = ("np.isclose", "np.allclose", "np.array_equal", "np.array_equiv", "np.isin", "np.where", "np.copyto", "np.concatenate", "np.dot", "np.setdiff1d")
+
+
+def _as_out(E, name):
+    """the operand `name` is also the out= target of the call: the typed family checks that it keeps its dtype"""
+    if hasattr(E, "outs"):
+        E.outs[name] = E.dt
+
+
+def _ao(E, shape, name="a"):
+    a = E.q(name, "L", shape)
+    _as_out(E, name)
+    return a
+
+
+def _row(E, a):
+    """out= target that is a VIEW of the operand (its first row)"""
+    o = a[0]
+    E.made["o"] = o
+    _as_out(E, "o")
+    return o
+
+
+ALIAS_OUT = [  # (name, handler key, call on (N, E, shape)): the operand is its own out= target
+    ("np.around", "numpy.around", lambda N, E, s: (lambda a: N.around(a, 1, out=a))(_ao(E, s))),
+    ("np.round", "numpy.round", lambda N, E, s: (lambda a: N.round(a, decimals=-1, out=a))(_ao(E, s))),
+    ("m.round", "ndarray.round", lambda N, E, s: (lambda a: a.round(1, out=a))(_ao(E, s))),
+    ("np.fix", "numpy.fix", lambda N, E, s: (lambda a: N.fix(a, out=a))(_ao(E, s))),
+    ("np.clip", "numpy.clip", lambda N, E, s: (lambda a: N.clip(a, E.q("lo", "L", ()), E.q("hi", "L", ()), out=a))(_ao(E, s))),
+    ("m.clip", "ndarray.clip", lambda N, E, s: (lambda a: a.clip(E.q("lo", "L", ()), E.q("hi", "L", ()), out=a))(_ao(E, s))),
+    ("np.cumsum", "numpy.cumsum", lambda N, E, s: (lambda a: N.cumsum(a, axis=0, out=a))(_ao(E, s))),
+    ("m.cumsum", "ndarray.cumsum", lambda N, E, s: (lambda a: a.cumsum(axis=-1, out=a))(_ao(E, s))),
+    ("np.take", "numpy.take", lambda N, E, s: (lambda a: N.take(a, _perm(a), out=a))(_ao(E, s))),
+    ("m.take", "ndarray.take", lambda N, E, s: (lambda a: a.take(_perm(a), out=a))(_ao(E, s))),
+    ("np.choose", "numpy.choose", lambda N, E, s: (lambda a: N.choose(_mask_like(a).astype(int), [a, E.q("b", "L", s)], out=a))(_ao(E, s))),
+    ("np.nan_to_num", "numpy.nan_to_num", lambda N, E, s: N.nan_to_num(E.q("a", "L", s), copy=False)),
+    ("np.sum-row", "numpy.sum", lambda N, E, s: (lambda a: N.sum(a, axis=0, out=_row(E, a)))(E.q("a", "L", s))),
+    ("m.mean-row", "ndarray.mean", lambda N, E, s: (lambda a: a.mean(axis=0, out=_row(E, a)))(E.q("a", "L", s))),
+    ("np.max-row", "numpy.max", lambda N, E, s: (lambda a: N.max(a, axis=0, out=_row(E, a)))(E.q("a", "L", s))),
+    ("np.concatenate-halves", "numpy.concatenate", lambda N, E, s: (lambda a: N.concatenate([a[1:], a[:1]], out=a))(_ao(E, s))),
+    ("np.dot-eye", "numpy.dot", lambda N, E, s: (lambda a: N.dot(a, E.const(np.eye(a.shape[-1]) if a.ndim else 1.0), out=a))(_ao(E, s))),
+]
+
+
+def alias_templates(tier):
+    out = []
+    for name, key, fn in ALIAS2:
+        for rel in RELATIONS:
+            for rk, shape in _AR.items():
+                if rel == "rev" and rk == "0":
+                    continue
+                if name in _ALIAS_SMALL and rk == "2":
+                    continue
+                if name == "np.cov" and rk == "0":
+                    continue  # one observation: the normalisation divides by zero
+                if rel == "bview" and name.startswith(("np.array_equal", "np.array_equiv")):
+                    continue  # a quantity and a bare array: the handlers deliberately answer False (different units, C19; see OUTSIDE)
+                quick = (rel == "same" and rk == "1") or (name in _ALIAS_QUICK_WIDE and ((rel == "same") or (rel in ("view", "rev") and rk == "1")))
+                if tier == "quick" and not quick:
+                    continue
+
+                def _mk(fn=fn, rel=rel, shape=shape):
+                    def f(N, E):
+                        a = E.q("a", "L", shape)
+                        return fn(N, a, _related(E, a, rel))
+                    return f
+                out.append(Tpl(f"alias/{name}/{rel}/{rk}", key, _mk(), groups=("L",), c07=False, quick=quick, max_paths=400))
+                # array_equal(equal_nan=True) makes NumPy call isnan, which has no object-dtype loop: typed buffers only (isclose / allclose
+                # are formula models in the symbolic families, A4, and know equal_nan)
+                out[-1].typed_only = name == "np.array_equal-equal_nan"
+    for name, key, fn in ALIAS_OUT:
+        for rk, shape in _AR.items():
+            if name.endswith("-row") and rk != "2":
+                continue
+            if name in ("np.concatenate-halves", "np.dot-eye") and rk == "0":
+                continue
+            quick = rk == ("2" if name.endswith("-row") else "1")
+            if tier == "quick" and not quick:
+                continue
+            out.append(Tpl(f"alias/{name}/out/{rk}", key, (lambda fn=fn, shape=shape: lambda N, E: fn(N, E, shape))(), groups=("L",), c07=False, quick=quick, max_paths=400))
+    return out
+
+
+# ----------------------------------------------------------------------------------------------------------- NaN payloads, solver-decided
+# A1 takes NaN out of every claim made with a symbolic payload: x == x is a theorem for reals. A handler shortcut that is only wrong
+# for unordered data (np.array_equal(a, a) answered True without looking) is therefore invisible to the families above. WHERE the
+# NaNs sit is a discrete axis: this family puts an IEEE-NaN proxy at enumerated positions of every payload array (a `mask` kind) and
+# keeps all other elements z3 reals, so each case is still decided for ALL real values of the remaining elements.
+# SymNaN: unordered (==, <, <=, >, >= are False, != is True: plain python bools, no fork), absorbing under arithmetic and under every
+# element method NumPy's object loops call. Anything that would need its z3 term raises Unsupported (path cut, counted).
+# NumPy's own C kernels treat float NaN specially in places an object array cannot mimic (sort puts NaN last, maximum propagates it,
+# unique collapses NaNs, isnan has no object loop): both runs of the differential see the SAME object semantics, so an agreement is
+# an agreement of unyt's Python code with NumPy's Python code under "NaN is unordered"; the pinned run of this family is not compared
+# with a float run (no conformance), but every counterexample is replayed with real float NaNs on plain unyt.
+class SymNaN(core.SymReal):
+    __slots__ = ()
+    _symx_nan = True  # read by the closeness model of the A4 numpy proxy (symx/shims.py)
+
+    def __init__(self):
+        pass
+
+    @property
+    def t(self):
+        raise core.Unsupported("a NaN payload element reached code that needs its value as a z3 term")
+
+    def _self(self, *a, **k):
+        return self
+
+    def _false(self, o):
+        return False
+
+    __eq__ = __lt__ = __le__ = __gt__ = __ge__ = _false
+
+    def __ne__(self, o):
+        return True
+
+    __hash__ = object.__hash__
+
+    def __bool__(self):
+        return True
+
+    def __float__(self):
+        return float("nan")
+
+    def __int__(self):
+        raise core.Unsupported("int() of a NaN payload element")
+
+    def __pow__(self, p, mod=None):
+        if not isinstance(p, SymNaN) and bool(p == 0):
+            return 1.0
+        return self
+
+    def __rpow__(self, o):
+        if bool(o == 1):
+            return 1.0
+        return self
+
+    def __divmod__(self, o):
+        return self, self
+
+    __rdivmod__ = __divmod__
+
+    def modf(self):
+        return self, self
+
+    def isnan(self):
+        return True
+
+    def isfinite(self):
+        return False
+
+    def isinf(self):
+        return False
+
+    def signbit(self):
+        return False
+
+    def is_integer(self):
+        return False
+
+    def __repr__(self):
+        return "nan"
+
+    def __format__(self, spec):
+        return format(float("nan"), spec)
+
+
+for _n in ("__add__", "__radd__", "__sub__", "__rsub__", "__mul__", "__rmul__", "__truediv__", "__rtruediv__", "__floordiv__", "__rfloordiv__",
+           "__mod__", "__rmod__", "__neg__", "__pos__", "__abs__", "__floor__", "__ceil__", "__trunc__", "__round__", "sqrt", "cbrt", "square",
+           "reciprocal", "fabs", "floor", "ceil", "trunc", "rint", "sign", "hypot", "arctan2", "logaddexp", "logaddexp2", "copysign", "nextafter",
+           "heaviside", "fmod", "ldexp", "deg2rad", "rad2deg", "spacing", "conjugate", "conj", "sin", "cos", "tan", "arcsin", "arccos", "arctan",
+           "sinh", "cosh", "tanh", "arcsinh", "arccosh", "arctanh", "exp", "exp2", "expm1", "log", "log2", "log10", "log1p"):
+    setattr(SymNaN, _n, SymNaN._self)
+NAN = SymNaN()
+
+NAN_MASKS = {"quick": ["n0"], "thorough": ["n0", "nl", "na", "nb"]}
+A13 = ("A13 NaN payload elements (family C06/nan/*): NaN is an unordered, absorbing element (SymNaN: every comparison False, != True, "
+       "arithmetic and element methods return NaN, NaN**0 = 1 = 1**NaN); NumPy kernels run their object-dtype code on it, which differs from the "
+       "float kernels where those special-case NaN (sort, maximum/minimum, unique, isnan); signs and payload bits of NaN, inf and -0.0 are "
+       "not modelled (the typed family runs NaN / inf / -0.0 through the real float kernels, as an enumeration); this family is not part of "
+       "the shim-conformance step; every counterexample is replayed with float NaNs on plain unyt")
+ASSUMPTIONS = ASSUMPTIONS + [A13]
+
+
+def _isnan_el(e):
+    while isinstance(e, np.ndarray) and e.shape == ():  # ndarray.fill(0-d object array) stores the 0-d array itself as the element
+        e = e.view(np.ndarray)[()]
+    return isinstance(e, SymNaN) or (isinstance(e, (float, np.floating)) and e != e)
+
+
+def leaves_equal_nan(x, y, exact=True):
+    """leaves_equal with `NaN at the same position` counting as equal (as np.array_equal(..., equal_nan=True) does)"""
+    xs, ys = leaf_elements(x), leaf_elements(y)
+    if len(xs) != len(ys):
+        return False
+    conds = []
+    for a, b in zip(xs, ys):
+        na, nb = _isnan_el(a), _isnan_el(b)
+        if na or nb:
+            if not (na and nb):
+                return False
+            continue
+        conds.append(elem_eq(a, b, exact))
+    return And(*conds) if conds else True
+
+
+class NanEnv(Env):
+    def __init__(self, ctx, mode, reg=None, alias=False, mask="n0"):
+        Env.__init__(self, ctx, mode, reg, alias=alias)
+        self.mask = mask
+        self._eligible = False
+        self._order = 0
+        self.nans = 0
+
+    def _positions(self, n):
+        first = self._order == 0
+        if self.mask == "n0":
+            return [0]
+        if self.mask == "nl":
+            return [n - 1] if n >= 2 else []
+        if self.mask == "na":
+            return [0] if first else []
+        return [] if first else [n - 1]
+
+    def _reals(self, name, shape, **kw):
+        a = Env._reals(self, name, shape, **kw)
+        if self._eligible:
+            flat = list(np.ndindex(*shape))
+            for i in self._positions(len(flat)):
+                a[flat[i]] = NAN if self.ctx.symbolic else np.nan
+                self.nans += 1
+            self._order += 1
+        return a
+
+    def q(self, name, group="L", shape=(2,), pos=False, nonzero=False, increasing=False, lo=None, hi=None, pattern=None):
+        # sorted / bounded / patterned payloads are preconditions of the call (searchsorted, histogram bins ...): they stay finite
+        self._eligible = pattern is None and not increasing and lo is None and hi is None
+        try:
+            return Env.q(self, name, group, shape, pos=pos, nonzero=nonzero, increasing=increasing, lo=lo, hi=hi, pattern=pattern)
+        finally:
+            self._eligible = False
+
+
+def operand_count(t):
+    """number of payload arrays a template makes (dry run on float64 buffers without units): na / nb masks need two"""
+    import warnings
+    E = TypedEnv(None, "bare", None, "float64", 0)
+    with warnings.catch_warnings(), np.errstate(all="ignore"):
+        warnings.simplefilter("ignore")
+        try:
+            t.fn(np, E)
+        except (Exception, core.Unsupported):
+            pass
+    if t.name.startswith("alias/"):
+        return 1  # the second operand is derived from the first
+    return len([n for n in E.made if n not in E.outs])
+
+
+def make_nan_case(t, mask):
+    envs = []
+
+    def env(ctx, mode, reg=None, alias=False):
+        e = NanEnv(ctx, mode, reg, alias=alias, mask=mask)
+        envs.append(e)
+        return e
+
+    c = make_case(t, env=env, case_id=f"C06/nan/{mask}/{t.name}", conform=False, same=leaves_equal_nan, observe=False, allow_unsupported=True,
+                  bounds="symbolic: every finite array element and bare scalar argument; enumerated: the positions that hold NaN (mask %s)" % mask)
+    inner = c.fn
+
+    def h(ctx):
+        del envs[:]
+        try:
+            return inner(ctx)
+        except (core.Unsupported, core.DomainExit):
+            # a NaN reached an element operation that needs a z3 term, or a NumPy routine without an object-dtype loop (isnan ...),
+            # or NumPy replaced it by +-inf (the nan-functions): the path is cut and counted
+            ctx.require("NaN family: path cut where NaN needs a float kernel (engine limit)", True)
+            raise
+
+    c.fn = h
+    return c
+
+
 def cases(tier, mods):
     check_names(mods, NAMES)
     install_numpy_patches()
-    sel = select(tier, "c06")
+    sel = select(tier, "c06") + alias_templates(tier)
+    typed_sel, sel = sel, [t for t in sel if not getattr(t, "typed_only", False)]
     ints = [t for t in sel if t.tier == 1 and not t.name.startswith("sweep/") and t.key not in INT_SKIP]
-    return ([make_case(t) for t in sel] + [make_typed_case(t, tier) for t in sel]
-            + [make_int_case(t, dt) for dt in INT_DTYPES[tier] for t in ints])
+    nans = [(t, m) for t in ints for m in NAN_MASKS[tier] if m in ("n0", "nl") or operand_count(t) >= 2]
+    return ([make_case(t) for t in sel] + [make_typed_case(t, tier) for t in typed_sel]
+            + [make_int_case(t, dt) for dt in INT_DTYPES[tier] for t in ints]
+            + [make_nan_case(t, m) for t, m in nans])
 
 
 def coverage_extra(results, tier):
     from .catalogue_common import coverage_summary
-    fam = lambda r: r["id"].split("/")[1] if r["id"].startswith(("C06/typed/", "C06/int/")) else "real"
+    fam = lambda r: r["id"].split("/")[1] if r["id"].startswith(("C06/typed/", "C06/int/", "C06/nan/")) else "real"
     out = coverage_summary([r for r in results if fam(r) == "real"], tier, "c06")
     typed = [r for r in results if fam(r) == "typed"]
     ints = [r for r in results if fam(r) == "int"]
     out["typed_family"] = dict(cases=len(typed), dtypes=TYPED_DTYPES[tier], value_sets=TYPED_SETS[tier], value_table=VALUE_TABLE,
                                decided_by="enumeration: ground checks on typed buffers, no solver verdict")
+    nans = [r for r in results if fam(r) == "nan"]
+    out["nan_family"] = dict(cases=len(nans), masks=NAN_MASKS[tier], mask_kinds=NAN_MASK_TEXT, paths=sum(r["paths"] for r in nans),
+                             paths_cut_engine_limit=sum(r["outcomes"].get("unsupported", 0) for r in nans),
+                             cases_cut_on_every_path=sorted(r["id"] for r in nans if r["paths"] and r["outcomes"].get("unsupported", 0) == r["paths"]),
+                             decided_by="z3, all real values of the finite elements; NaN positions enumerated (A13)")
+    out["alias_family"] = dict(cases=len([r for r in results if "/alias/" in r["id"] and "@after" not in r["id"]]), relations=list(RELATIONS) + ["out"],
+                               two_operand_functions=len(ALIAS2), out_alias_forms=len(ALIAS_OUT))
+    out["typed_family"]["non_finite_value_sets"] = TYPED_NONFINITE[tier]
     out["integer_family"] = dict(cases=len(ints), declared_dtypes=INT_DTYPES[tier], paths=sum(r["paths"] for r in ints),
                                  paths_cut_engine_limit=sum(r["outcomes"].get("unsupported", 0) for r in ints),
                                  cases_cut_on_every_path=sorted(r["id"] for r in ints if r["paths"] and r["outcomes"].get("unsupported", 0) == r["paths"]),
